@@ -352,17 +352,17 @@ def exec_calib(case):
                 out.fail(f"{tag}/{sn}-{v}/{'all-degenerate' if 'normal' not in case['batches'] else 'mixed'}-batches",
                          f"{name}.{sn} = {s.item()!r} after calibrating on batches {case['batches']} ({case['aq']}, weights {case['wq']}, {case['dtype']})")
                 return out
-    if len(batches) == 1 and qin is None:
-        # (float batches: a batch quantized upstream with another qtype is requantized by the first module, whose range was
-        # evaluated before that requantization -- the bound below would have to include that extra rounding)
+    if len(batches) == 1:
         # calibrated on ONE batch, a fresh model run on that very batch: every module sees the input it was calibrated on, so the
         # range each output scale covers contains the module's own raw (pre-quantization) output -- nothing saturates, the error of
         # every quantized activation obeys the bound of C01 (half a step inside the range)
-        raws, outs, undo = {}, {}, []
+        raws, outs, undo, ins = {}, {}, [], {}
         for name, m in model.named_modules():
             if isinstance(m, QModuleMixin) and m.activation_qtype is not None:
                 def wrap(orig, name=name):
                     def qforward(inp):
+                        if isinstance(inp, QBytesTensor):
+                            ins[name] = inp  # the input the module computes with (requantized when it came with another qtype)
                         r_ = orig(inp)
                         raws[name] = r_.dequantize().detach().clone() if isinstance(r_, QTensor) else r_.detach().clone()
                         return r_
@@ -390,6 +390,15 @@ def exec_calib(case):
                 out.fail(f"{tag}/calibration-batch-saturates", f"module {name}: on the very batch it was calibrated on ({case['batches'][0]}), its raw output reaches {top:.6g} but the calibrated range is "
                                                                f"output_scale * {G:g} = {so * G:.6g} ({case['aq']}, {case['dtype']}, {case['model']})")
                 break
+        if qin is not None and not out.failures:
+            # ... and a batch handed over quantized with ANOTHER qtype is requantized by the first module without saturating
+            first = next(iter(ins), None)
+            src = feed(batches[0]).dequantize().to(torch.float64)
+            if first is not None and ins[first].qtype == aq and ins[first]._scale.numel() == 1:
+                si = float(ins[first]._scale.to(torch.float64))
+                if float(src.abs().max()) > si * G * (1 + 4 * u) + G * eta:
+                    out.fail(f"{tag}/calibration-batch-saturates/input-of-another-qtype", f"module {first}: the batch it was calibrated on ({case['batches'][0]}, quantized upstream as {qin.name}) reaches "
+                                                                                           f"{float(src.abs().max()):.6g}, its input range is input_scale * {G:g} = {si * G:.6g} ({case['aq']}, {case['dtype']})")
         out.klass.append("single-batch")
     for which, inp in [("probe", probe)] + [(b, x) for b, x in zip(case["batches"], batches)]:
         # inference on an ordinary batch, and on the degenerate batches themselves
